@@ -44,7 +44,7 @@ theorem newConn_inv (k : Nat) (a : Option Nat) : ConnInv (newConn k a) := by
 /-- what one action of an open_connection task preserves -/
 theorem stepS_inv {c c' : Conn} {a : Act} {free : Bool} {cmds : List Cmd}
     (hi : ConnInv c) (h : stepS c a free = some (c', cmds)) :
-    ConnInv c' ∧ c'.addr = c.addr ∧ (c'.entry = true → c.entry = true) ∧ c'.cbs = c.cbs := by
+    ConnInv c' ∧ (c'.entry = true → c.entry = true) ∧ c'.cbs = c.cbs := by
   unfold stepS at h
   split at h <;> (try split at h) <;>
     simp only [Option.some.injEq, Prod.mk.injEq, reduceCtorEq] at h <;>
@@ -210,7 +210,7 @@ theorem mem_of_getElem? {l : List Conn} {i : Nat} {c : Conn} (h : l[i]? = some c
 /-- replacing the state of task `i` (an action of the task, or one of its callbacks) preserves the invariant -/
 theorem Inv.set {s : St} {i : Nat} {c c' : Conn} {n : Nat}
     (hi : Inv s) (hc : s.conns[i]? = some c)
-    (h1 : ConnInv c') (h2 : c'.addr = c.addr) (h3 : c'.entry = true → c.entry = true)
+    (h1 : ConnInv c') (h3 : c'.entry = true → c.entry = true)
     (h5 : CbInv c') (h6 : hasWait c' = true → hasWait c = true)
     (h7 : c'.entry = true → hasWait c = true → hasWait c' = true)
     (h8 : n + (if hasWait c = true then 1 else 0) = s.hcount + (if hasWait c' = true then 1 else 0)) :
@@ -331,7 +331,7 @@ theorem Inv.wake {s : St} (hi : Inv s) (ad : Nat) : Inv (wakeNext s ad) := by
       have hci := hi.conn d hmem
       have hcb := hi.cb d hmem
       have := Inv.set (n := s.hcount) (c' := { d with pc := .semWoken }) hi hd
-        (by unfold ConnInv at hci ⊢; simp only [hpc] at hci; exact hci) rfl (fun h => h)
+        (by unfold ConnInv at hci ⊢; simp only [hpc] at hci; exact hci) (fun h => h)
         hcb (fun h => h) (fun _ h => h) rfl
       exact Inv.semfields this _ _
 
@@ -486,9 +486,9 @@ theorem Inv.preserved {s s' : St} {l : Label} (hi : Inv s) (h : step s l = some 
         split at h
         · rename_i c' cmds hs
           have hmem := mem_of_getElem? hc
-          obtain ⟨h1, h2, h3, h5⟩ := stepS_inv (hi.conn c hmem) hs
+          obtain ⟨h1, h3, h5⟩ := stepS_inv (hi.conn c hmem) hs
           have hcb := hi.cb c hmem
-          refine Inv.apply (Inv.semEffect (Inv.set (n := s.hcount) hi hc h1 h2 h3 ?_ ?_ ?_ ?_) i c a) h
+          refine Inv.apply (Inv.semEffect (Inv.set (n := s.hcount) hi hc h1 h3 ?_ ?_ ?_ ?_) i c a) h
           · unfold CbInv at hcb ⊢; rw [h5]; exact ⟨hcb.1, fun he => hcb.2 (h3 he)⟩
           · simp [hasWait, h5]
           · simp [hasWait, h5]
@@ -576,7 +576,7 @@ theorem Inv.preserved {s s' : St} {l : Label} (hi : Inv s) (h : step s l = some 
             simp only [Option.some.injEq] at h; subst h
             have hrest : rest = [] ∨ rest = [.waitH] := by
               unfold CbInv at hcb; rcases hcb.1 with h | h | h | h <;> simp_all
-            refine Inv.set (n := s.hcount) hi hc (hsett _ hdone rfl rfl rfl rfl) rfl (by simp)
+            refine Inv.set (n := s.hcount) hi hc (hsett _ hdone rfl rfl rfl rfl) (by simp)
               ?_ ?_ (by simp) ?_
             · unfold CbInv; rcases hrest with h | h <;> simp [h]
             · rcases hrest with h | h <;> simp [hasWait, h, hcbs]
@@ -594,7 +594,7 @@ theorem Inv.preserved {s s' : St} {l : Label} (hi : Inv s) (h : step s l = some 
             have hwc : hasWait c = true := by simp [hasWait, hcbs]
             have hpos : 0 < s.conns.countP hasWait := List.countP_pos_iff.mpr ⟨c, hmem, hwc⟩
             have hw := hi.wait
-            refine Inv.set (n := s.hcount - 1) hi hc (hsett _ hdone rfl rfl rfl rfl) rfl (by simp)
+            refine Inv.set (n := s.hcount - 1) hi hc (hsett _ hdone rfl rfl rfl rfl) (by simp)
               ?_ (by simp [hasWait]) (by simp [hent]) ?_
             · unfold CbInv; simp [hent]
             · simp [hasWait, hcbs]; omega
